@@ -69,6 +69,8 @@ Special == { Mod(<<Item("a", One), Item("a", IntV("2")), Item("A", IntV("3"))>>)
              Mod(<<Item("g-", Grp(<<Item("x", One)>>)), Item("o", Obj(<<Item("y", One)>>))>>),
              Mod(<<Item("k-", One), Item("k2", One)>>),
              Mod(<<Item("s", SeqV([i \in 1..9 |-> Str(S("cross-track along-track"))]))>>),
+             Mod(<<Item("g", Grp(<<Item("x", One), Item("X", IntV("2"))>>)), Item("o", Obj(<<Item("y", One)>>))>>),
+             Mod(<<Item("g", Grp(<<Item("k", One)>>)), Item("G", Grp(<<Item("k", IntV("2"))>>)), Item("o", Obj(<<Item("y", One)>>))>>),
              Mod(<<>>), Mod(<<Item("empty_group", Grp(<<>>))>>) }
 Modules == UNION { Shapes(v) : v \in Values } \cup Special
 
@@ -77,7 +79,15 @@ Init == m \in Modules
 Next == FALSE /\ m' = m
 Spec == Init /\ [][Next]_m
 Encs == {"PVL", "ODL", "PDS3", "ISIS"}
-NormIdempotent == \A enc \in Encs : \A p \in {enc, "OMNI"} : NormModule(enc, p, NormModule(enc, p, m)) = NormModule(enc, p, m)
+(* Upper-casing names (ODL, PDS3) can make two different keys of one group equal; under PDS3 the group is then no longer a
+   valid PDS group and becomes an OBJECT on the NEXT round trip.  This is the one place where the documented normalisations
+   do not compose idempotently (a design-level finding, listed as F-C07-case-colliding-keys); the theorem excludes it. *)
+RECURSIVE CaseCollision(_)
+CaseCollision(n) == \/ (n.t = "PVLGroup" /\ \E i, j \in 1..Len(n.xs) : i # j /\ n.xs[i].s # n.xs[j].s /\ UpperSeq(n.xs[i].s) = UpperSeq(n.xs[j].s))
+                    \/ \E k \in 1..Len(n.xs) : CaseCollision(n.xs[k])
+NormIdempotent == \A enc \in Encs : \A p \in {enc, "OMNI"} :
+   (enc = "PDS3" /\ CaseCollision(m)) \/ NormModule(enc, p, NormModule(enc, p, m)) = NormModule(enc, p, m)
+NonIdempotentOnlyThere == CaseCollision(m) => NormModule("PDS3", "PDS3", NormModule("PDS3", "PDS3", m)) # NormModule("PDS3", "PDS3", m)
 RECURSIVE NoStrTimeGroup(_)
 NoStrTimeGroup(n) == n.t \notin {"str", "time", "datetime", "PVLGroup"} /\ \A k \in 1..Len(n.xs) : NoStrTimeGroup(n.xs[k])
 PvlKeepsEverything == NormModule("PVL", "PVL", m) = LET RECURSIVE Z(_)
